@@ -495,6 +495,9 @@ def check_params(model, rep, sx: SX):
 
 
 def check(model, rep):
+    # hidden state Python keeps outside the objects (not modelled by the evaluator): reported before anything else is evaluated
+    from checks.solver_common import package_lints as _package_lints
+    _package_lints(model, rep, 'C19.hidden-state', ('/units/', '/mechanical_objects/'))
     from checks.solver_common import absorb_cmp
     absorb_cmp(model, rep, 'C19.dep.cmp', ('Angle', 'AngularPosition', 'Current'))
     rep.explain('C19: constructors of the five sign-constrained kinds reject violating values on every completing '
